@@ -76,24 +76,31 @@ def hunks(patch_text: str):
 def entry_from_patch(pid: str, path: str) -> dict:
     hs = hunks(open(path).read())
     edits = []
+    cur = {}          # file -> text with the earlier hunks of this patch applied
+    delta = {}        # file -> net length change so far
     for f, o, n, start in hs:
         e = {"file": f, "find": o, "replace": n}
-        # which occurrence of the old text the hunk means: count the occurrences that begin before the hunk's first line
         src_path = os.path.join("/repo", f)
         if os.path.exists(src_path) and o:
-            src = open(src_path).read()
-            if src.count(o) > 1:
-                off = sum(len(l) for l in src.splitlines(keepends=True)[:max(start - 1, 0)])
-                # the hunk starts at `off` (give or take fuzz): the occurrence at or just after it
-                j, k = -1, 0
-                while True:
-                    j = src.find(o, j + 1)
-                    if j < 0:
-                        break
-                    k += 1
-                    if j >= off - 1:
-                        e["occurrence"] = k
-                        break
+            if f not in cur:
+                cur[f] = open(src_path).read()
+                delta[f] = 0
+            src = cur[f]
+            orig = open(src_path).read()
+            off = sum(len(l) for l in orig.splitlines(keepends=True)[:max(start - 1, 0)]) + delta[f]
+            # the occurrence of the old text at (or nearest to) the position the hunk names
+            pos, j = [], -1
+            while True:
+                j = src.find(o, j + 1)
+                if j < 0:
+                    break
+                pos.append(j)
+            if pos:
+                k = min(range(len(pos)), key=lambda i: abs(pos[i] - off))
+                if len(pos) > 1:
+                    e["occurrence"] = k + 1
+                cur[f] = src[:pos[k]] + n + src[pos[k] + len(o):]
+                delta[f] += len(n) - len(o)
         edits.append(e)
     return {"id": pid, "edits": edits, "file": edits[0]["file"] if edits else "", "find": "", "replace": ""}
 
